@@ -344,6 +344,8 @@ SyncStep ==
                                       IN /\ n \in DOMAIN C.cf[d] /\ "ino" \in DOMAIN C.cf[d][n] /\ n \in DOMAIN fs[d]
                                          /\ "trusted" \in DOMAIN a /\ d \in ToSet(a.trusted)
                                          /\ C.cf[d][n].ino # fs[d][n].ino /\ SameStamp(C.cf[d][n], fs[d][n])
+                                         \* ... an inode number that is not the recorded one of any file (else it is a move by inode)
+                                         /\ ~\E m \in DOMAIN C.cf[d] : "ino" \in DOMAIN C.cf[d][m] /\ C.cf[d][m].ino = fs[d][n].ino
                                THEN "F13-same-path-size-stamp-other-inode-taken-as-restored"
                                ELSE "synced-block-hash-is-not-the-hash-of-the-data", C19_Wrong(newc, Ev.state.fs)>>>> ELSE <<>>) \o
                       (IF r.out.exit = "prehash-stop" /\ ~SamePar(Ev.state.sha.p, sha.p)
